@@ -66,7 +66,7 @@ def instances(tier, seed):
     H = [h for h in fam.HORIZONS]
     grids = [fam.G_UNI, fam.G_GEO_LOC, fam.G_UNI_LT, fam.G_UNI_LT0]
     n = 0
-    reps = 1 if tier == 'quick' else 3
+    reps = 1 if tier == 'quick' else 6
     for rep in range(reps):
         for method, intg, dae in (('MS', 'rk', False), ('SS', 'rk', False), ('DC', None, False), ('DC', None, True)):
             N = [2, 3][n % 2] if tier == 'quick' else rng.choice([1, 2, 3])
